@@ -40,7 +40,9 @@
 #include <fcppt/type_iso/undecorate.hpp>
 
 #include <algorithm>
+#include <cmath>
 #include <cstdint>
+#include <cstring>
 #include <limits>
 #include <string>
 #include <type_traits>
@@ -276,6 +278,139 @@ void strong_typedef_string()
                 "strong_typedef<string>:comparison", "comparison differs from std::string for %zu,%zu", i, j);
       if (a == b)
         VRT_CHECK(std::hash<st>{}(x) == std::hash<st>{}(y), "strong_typedef<string>:hash", "equal strings hash differently");
+    }
+}
+
+// strong_typedef over floating point: the underlying == / < are not an equivalence / strict weak order
+// (NaN is unordered, -0.0 == 0.0), so a<=b is NOT !(b<a).  Transparency only: every wrapper operator
+// must give exactly the raw operator's result on the underlying values; no order laws are required.
+template <class F> bool same_fp(F a, F b)
+{
+  if (std::isnan(a) || std::isnan(b))
+    return std::isnan(a) && std::isnan(b);
+  return std::memcmp(&a, &b, sizeof(F)) == 0; // tells -0.0 from 0.0
+}
+
+template <class F> void strong_typedef_float(char const *tname)
+{
+  struct tag
+  {
+  };
+  using st = fcppt::strong_typedef<F, tag>;
+  using lim = std::numeric_limits<F>;
+  static std::string const fam = std::string("strong_typedef<") + tname + ">";
+  static std::string const n_bin = fam + ":binary";
+  static std::string const n_un = fam + ":unary";
+  // another NaN payload: quiet NaN with one more mantissa bit set, sign set
+  F nan2 = lim::quiet_NaN();
+  {
+    unsigned char b[sizeof(F)];
+    std::memcpy(b, &nan2, sizeof(F));
+    b[0] |= 0x5; // low mantissa byte (little endian)
+    b[sizeof(F) - 1] |= 0x80;
+    std::memcpy(&nan2, b, sizeof(F));
+  }
+  if (!std::isnan(nan2) || !std::isnan(lim::quiet_NaN()))
+    vrt::fail("harness:float_nan", "NaN construction failed");
+  std::vector<F> const dom{-lim::infinity(), F(-1),           F(-0.0),           F(0.0),           F(1),
+                           lim::max(),       lim::denorm_min(), lim::infinity(), lim::quiet_NaN(), nan2};
+  char const *const names[] = {"-inf", "-1", "-0.0", "0.0", "1", "max", "denorm_min", "+inf", "NaN", "NaN'"};
+  for (std::size_t i = 0; i < dom.size(); ++i)
+  {
+    F const a = dom[i];
+    if (vrt::begin(n_un.c_str(), i))
+    {
+      vrt::nontrivial(std::isnan(a) || a == F(0));
+      vrt::describe(fam + " unary: " + names[i]);
+      vrt::maybe_sample();
+      st const x{a};
+      VRT_CHECK(same_fp(x.get(), a), fam + ":get", "get() of st(%s) differs", names[i]);
+      VRT_CHECK(same_fp((-x).get(), -a), fam + ":unary_minus", "-st(%s) differs from the raw result", names[i]);
+    }
+    for (std::size_t j = 0; j < dom.size(); ++j)
+    {
+      if (!vrt::begin(n_bin.c_str(), i, j))
+        continue;
+      F const b = dom[j];
+      // non-trivial: an operand is NaN or the pair is (-0.0, 0.0): <= differs from !(b<a) or == from identity
+      vrt::nontrivial(std::isnan(a) || std::isnan(b) || (a == b && !same_fp(a, b)));
+      vrt::describe(fam + " binary: " + names[i] + " , " + names[j]);
+      vrt::maybe_sample();
+      st const x{a}, y{b};
+#define C17_FCMP(op, name)                                                                                              \
+  VRT_CHECK((x op y) == (a op b), fam + ":" name, "st(%s) " #op " st(%s) gave %d, raw operator gives %d", names[i],    \
+            names[j], (int)(x op y), (int)(a op b))
+      C17_FCMP(==, "equal");
+      C17_FCMP(!=, "not_equal");
+      C17_FCMP(<, "less");
+      C17_FCMP(<=, "less_equal");
+      C17_FCMP(>, "greater");
+      C17_FCMP(>=, "greater_equal");
+#undef C17_FCMP
+#define C17_FBIN(op, name)                                                                                              \
+  VRT_CHECK(same_fp((x op y).get(), a op b), fam + ":" name, "st(%s) " #op " st(%s) gave %g, raw operator gives %g",   \
+            names[i], names[j], (double)(x op y).get(), (double)(a op b))
+      C17_FBIN(+, "plus");
+      C17_FBIN(-, "minus");
+      C17_FBIN(*, "times");
+#undef C17_FBIN
+      {
+        st l{a};
+        l += y;
+        st m{a};
+        m -= y;
+        st t{a};
+        t *= y;
+        VRT_CHECK(same_fp(l.get(), a + b) && same_fp(m.get(), a - b) && same_fp(t.get(), a * b), fam + ":compound_assign",
+                  "+=, -= or *= on st(%s), st(%s) differs from the raw result", names[i], names[j]);
+      }
+    }
+  }
+}
+
+// a genuinely partially ordered underlying type: 3-bit flag sets ordered by inclusion
+struct flagset
+{
+  unsigned bits;
+  friend bool operator==(flagset a, flagset b) { return a.bits == b.bits; }
+  friend bool operator!=(flagset a, flagset b) { return a.bits != b.bits; }
+  friend bool operator<=(flagset a, flagset b) { return (a.bits & ~b.bits) == 0U; }              // subset
+  friend bool operator<(flagset a, flagset b) { return (a.bits & ~b.bits) == 0U && a.bits != b.bits; } // proper subset
+  friend bool operator>=(flagset a, flagset b) { return (b.bits & ~a.bits) == 0U; }
+  friend bool operator>(flagset a, flagset b) { return (b.bits & ~a.bits) == 0U && a.bits != b.bits; }
+};
+
+void strong_typedef_partial_order()
+{
+  struct tag
+  {
+  };
+  using st = fcppt::strong_typedef<flagset, tag>;
+  static std::string const fam = "strong_typedef<flagset>";
+  for (unsigned i = 0; i < 8; ++i)
+    for (unsigned j = 0; j < 8; ++j)
+    {
+      if (!vrt::begin("strong_typedef<flagset>:binary", i, j))
+        continue;
+      // reference written independently of flagset's operators
+      bool const sub = (i & j) == i, sup = (i & j) == j, same = i == j;
+      // non-trivial: incomparable sets (neither includes the other): a<=b and !(b<a) differ
+      vrt::nontrivial(!sub && !sup);
+      vrt::maybe_sample();
+      flagset const a{i}, b{j};
+      if ((a == b) != same || (a != b) != !same || (a <= b) != sub || (a < b) != (sub && !same) || (a >= b) != sup ||
+          (a > b) != (sup && !same))
+        vrt::fail("harness:flagset_operators", "flagset operators disagree with the subset reference");
+      st const x{a}, y{b};
+      VRT_CHECK((x == y) == same, fam + ":equal", "st(%u) == st(%u) gave %d", i, j, (int)(x == y));
+      VRT_CHECK((x != y) == !same, fam + ":not_equal", "st(%u) != st(%u) gave %d", i, j, (int)(x != y));
+      VRT_CHECK((x < y) == (sub && !same), fam + ":less", "st(%u) < st(%u) gave %d, proper subset is %d", i, j, (int)(x < y),
+                (int)(sub && !same));
+      VRT_CHECK((x <= y) == sub, fam + ":less_equal", "st(%u) <= st(%u) gave %d, subset is %d", i, j, (int)(x <= y), (int)sub);
+      VRT_CHECK((x > y) == (sup && !same), fam + ":greater", "st(%u) > st(%u) gave %d, proper superset is %d", i, j,
+                (int)(x > y), (int)(sup && !same));
+      VRT_CHECK((x >= y) == sup, fam + ":greater_equal", "st(%u) >= st(%u) gave %d, superset is %d", i, j, (int)(x >= y),
+                (int)sup);
     }
 }
 
@@ -551,6 +686,12 @@ void register_wrappers()
     strong_typedef_ops<unsigned>(0, 1);
     strong_typedef_ops<unsigned long long>(0, 1);
     strong_typedef_string();
+  });
+  // partially ordered underlying types (both tiers): a<=b is not !(b<a)
+  vrt::shard("strong_typedef_partial_order", [] {
+    strong_typedef_float<float>("float");
+    strong_typedef_float<double>("double");
+    strong_typedef_partial_order();
   });
   vrt::shard("strong_typedef_values", [] { strong_typedef_values(); });
   vrt::shard("reference", [] { references(); });
